@@ -3,5 +3,5 @@ CONSTANTS
   Dev = {}
   MaxObs = 8
   EmitReplay = TRUE
-INVARIANTS NoFalseNegative Exact AddedAtThreshold Emit
+INVARIANTS NoFalseNegative Exact AddedAtThreshold SameStep Emit
 CHECK_DEADLOCK FALSE
